@@ -1,7 +1,7 @@
 SPECIFICATION Spec
 CONSTANT TerOnModelChange = TRUE
 CONSTANT CifChargeVerbatim = FALSE
-CONSTANT FullShapes = FALSE
+CONSTANT ShapeLevel = 1
 CONSTANT MaxAtoms = 4
 INVARIANT InvDomain
 INVARIANT InvReadBack
